@@ -40,6 +40,7 @@ Definition enc_step (s : step) : Z :=
   | SRename o => 1000000 + owner_code o
   | SRenameCh o => 1200000 + owner_code o
   | SDeleteOrig f => 1100000 + fcode f
+  | SFail _ => 1300000
   end.
 
 Definition fkinds : list fkind := [FBin; FCbin; FTmp; FCh; FMeta; FChTmp].
@@ -51,7 +52,7 @@ Definition universe (n : nat) : list path :=
 Definition enc_fstate (v : fstate) : Z :=
   match v with Absent => 0 | Partial => 1 | Complete => 2 end.
 Definition enc_err (e : err) : Z :=
-  match e with EFileNotFound => 1 | EAssertion => 2 | ECrash => 3 | EUnspecified => 4 end.
+  match e with EFileNotFound => 1 | EAssertion => 2 | ECrash => 3 | EUnspecified => 4 | EOther => 9 end.
 Definition enc_outcome (o : outcome) : Z :=
   match o with Status z => 100 + z | Raised e => 200 + enc_err e end.
 
@@ -81,13 +82,41 @@ Fixpoint dec_runs (fuel : nat) (l : list Z) : list runspec :=
 Definition dec_kind (z : Z) : kind :=
   if z =? 0 then NP24 else if z =? 1 then NP21 else NP1.
 
+(* object mode: 7 integers per call: ctype(0 process | 1 check_NP24 | 2 delete_NP24 | 3 set options)
+   post del comp (new option values, ctype 3 only)  overwrite  crash  corrupt *)
+Fixpoint dec_calls (fuel : nat) (l : list Z) : list call :=
+  match fuel with
+  | O => []
+  | S f =>
+      match l with
+      | t :: po :: de :: co :: ow :: cr :: cp :: rest =>
+          (if t =? 0 then CProcess (dec_bool ow) (dec_opt cr) (dec_opt cp)
+           else if t =? 1 then CCheck (dec_opt cr) (dec_opt cp)
+           else if t =? 2 then CDelete (dec_opt cr)
+           else CSetOpts (mkO (dec_bool po) (dec_bool de) (dec_bool co))) :: dec_calls f rest
+      | _ => []
+      end
+  end.
+
+(* input, history mode: kind :: ...; object mode: 10+kind :: n :: w :: compressed :: post :: del ::
+   comp :: calls *)
 Definition run (inp : list Z) : list Z :=
   match inp with
   | kd :: n :: w :: c :: rest =>
       let n' := Z.to_nat n in
-      flat_map (enc_out n')
-        (run_hist (dec_kind kd) n' (Z.to_nat w) (init_fs (dec_bool c))
-                  (dec_runs (length rest) (rest)))
+      if kd <? 10 then
+        flat_map (enc_out n')
+          (run_hist (dec_kind kd) n' (Z.to_nat w) (init_fs (dec_bool c))
+                    (dec_runs (length rest) (rest)))
+      else
+        match rest with
+        | po :: de :: co :: rest' =>
+            flat_map (enc_out n')
+              (obj_run (dec_kind (kd - 10)) n' (Z.to_nat w)
+                       (new_obj (mkO (dec_bool po) (dec_bool de) (dec_bool co)) (dec_bool c))
+                       (init_fs (dec_bool c)) (dec_calls (length rest') rest'))
+        | _ => [-998]
+        end
   | _ => [-999]
   end.
 
